@@ -12,7 +12,7 @@ import lib
 PARTS = {
     "struct": ["InvDocumentOrder", "InvRootsDedup", "InvExact"],
     "attr": ["InvDocumentOrder", "InvExact"],
-    "truth": ["InvAlgebra", "InvCaseless"],
+    "truth": ["InvAlgebra", "InvCaseless", "InvStrict"],
 }
 
 TIERS = {
@@ -29,9 +29,11 @@ ASSUMPTIONS = [
     "trees are Entry / Section / Directive objects under parentless document entries; several documents are "
     "queried through a Result holding them (that is what makes 'roots' more than a constant)",
     "names are strings; attribute values are ASCII strings and non-negative integers (no floats, None, bools)",
-    "when an atom of a term raises on a value, an evaluator may answer either the interpreted value (the raising "
-    "atom is false) or False (the whole query does not match); selections are then checked as a sandwich "
-    "must-match <= result <= may-match; without raising atoms the check is exact equality in document order",
+    "inside a query a Boolean predicate is evaluated left to right with short-circuit and / or; if an evaluated "
+    "atom raises, the predicate does not match that node / attribute (other alternatives are still tried); "
+    "selections are always compared exactly, in document order",
+    "stand-alone truth values (test / to_pyfunc): exact when no atom raises on the value; when some atom raises "
+    "the statement is silent about the term's own truth value and either the interpreted value or False is accepted",
     "chained calls are made on receivers that are not nested in each other (a non-deep first step)",
     "exhaustive only inside the bounded spaces of QueryMC; beyond them seeded random forests, queries and terms",
 ]
